@@ -46,18 +46,19 @@ type c12ConnScn struct {
 }
 
 type c12Scn struct {
-	Name          string       `json:"name"`
-	Pool          int          `json:"pool"`                      // maxroutine (0 = one goroutine per request)
-	QueueCap      int          `json:"queue_cap"`                 // 0 = framework default
-	GraceMs       int          `json:"grace_ms"`                  // gracedowntimeout
-	Signal        string       `json:"signal"`                    // TERM | INT | USR2 | DIRECT (TarsServer.Shutdown called with a context of GraceMs)
-	QuietMs       int          `json:"quiet_ms,omitempty"`        // the non-fresh connections are left quiet this long before the trigger
-	ReadTimeoutMs int          `json:"read_timeout_ms,omitempty"` // server readtimeout (0 = framework default: none)
-	Race          string       `json:"race,omitempty"`            // "read-then-count": connection 0's receive loop is held between Read and numInvoke++ (yield hook) while the poller closes it
-	SmallBuf      bool         `json:"small_buf,omitempty"`       // 64 KB server send buffer: a multi-megabyte response blocks in Write until the client reads
-	Phase         string       `json:"phase"`                     // "read": trigger once the server has read every Pre request; "sent": right after the writes
-	Late          bool         `json:"late"`                      // open one more connection after the listener went down and send a request on it
-	Conns         []c12ConnScn `json:"conns"`
+	Name            string       `json:"name"`
+	Pool            int          `json:"pool"`                        // maxroutine (0 = one goroutine per request)
+	QueueCap        int          `json:"queue_cap"`                   // 0 = framework default
+	GraceMs         int          `json:"grace_ms"`                    // gracedowntimeout
+	Signal          string       `json:"signal"`                      // TERM | INT | USR2 | DIRECT (TarsServer.Shutdown called with a context of GraceMs)
+	QuietMs         int          `json:"quiet_ms,omitempty"`          // the non-fresh connections are left quiet this long before the trigger
+	ReadTimeoutMs   int          `json:"read_timeout_ms,omitempty"`   // server readtimeout (0 = framework default: none)
+	Race            string       `json:"race,omitempty"`              // "read-then-count": connection 0's receive loop is held between Read and numInvoke++ (yield hook) while the poller closes it
+	HandleTimeoutMs int          `json:"handle_timeout_ms,omitempty"` // server handletimeout (0 = none): bounds a handler's run time
+	SmallBuf        bool         `json:"small_buf,omitempty"`         // 64 KB server send buffer: a multi-megabyte response blocks in Write until the client reads
+	Phase           string       `json:"phase"`                       // "read": trigger once the server has read every Pre request; "sent": right after the writes
+	Late            bool         `json:"late"`                        // open one more connection after the listener went down and send a request on it
+	Conns           []c12ConnScn `json:"conns"`
 }
 
 // c12Event is one entry of the totally ordered log (Seq = position).
@@ -361,6 +362,9 @@ func c12ChildMain(a Args) {
 	if scn.SmallBuf {
 		extra += "tcpwritebuffer=65536\n"
 	}
+	if scn.HandleTimeoutMs > 0 {
+		extra += fmt.Sprintf("handletimeout=%d\n", scn.HandleTimeoutMs)
+	}
 	if scn.ReadTimeoutMs > 0 {
 		extra += fmt.Sprintf("readtimeout=%d\n", scn.ReadTimeoutMs)
 	}
@@ -654,7 +658,7 @@ threads=1
 	} else {
 		syscall.Kill(os.Getpid(), sig)
 	}
-	if scn.Race == "read-then-count" {
+	if scn.Race == "read-then-count" || scn.Race == "read-then-count-fresh" {
 		// the schedule of Props/C12.v race_read_then_count: connection 0 (quiet, idle timestamp stale) sends one more
 		// request; its receive loop is held after Read returned, before numInvoke++; the poller's first round sees
 		// numInvoke = 0 and closes the connection; then the receive loop goes on
@@ -670,9 +674,15 @@ threads=1
 		case <-time.After(2 * time.Second):
 			finish("race scenario: the receive loop did not reach the yield point")
 		}
+		hold := 3 * time.Second
+		if scn.Race == "read-then-count-fresh" {
+			// a connection used a moment ago: held across ONE poller round only (the first tick, 500 ms after the
+			// trigger); its idle timestamp is fresh, the 2 s threshold keeps the poller from closing it
+			hold = 700 * time.Millisecond
+		}
 		select {
 		case <-rdone[0]: // the client saw EOF: the poller has closed the connection
-		case <-time.After(3 * time.Second):
+		case <-time.After(hold):
 		}
 		transport.VerifC12ResumeBeforeCount()
 	}
